@@ -312,19 +312,25 @@ def check_copy(spec, path, C, i, SA, MA, RA, shape, first_stop, orig, rec, F, H,
         # each copy counts its own evaluations - wherever the uninterrupted solver counts its own in this Step
         ref_counts = RA[t]["devals"] == RA[t]["real"]
         mon_grows = sc["evalmon_x"] is not None and RA[t]["dmon"] == RA[t]["real"]
-        if ref_counts and not (r["devals"] == r["real"] and (not mon_grows or r["dmon"] == r["real"])):
-            if path == "deepcopy" and r["devals"] == 0 and r["dmon"] == 0:
-                # F5: the deep copy's objective writes into private copies of BOTH cells
-                in_f5 = True
-                F("monitor", B.KEY_F5, "cut %d, Step %d of the deep copy: %d real cost calls, evaluations grew by %d, evaluation monitor by %d"
-                  % (i, j, r["real"], r["devals"], r["dmon"]), path=path, cut=i, step=j)
-            else:
-                F("monitor", tag + "/copy-does-not-count-its-own-evaluations/" + cls, "cut %d (%s), Step %d: %d real cost calls, evaluations grew by %d (uninterrupted run: %d calls, +%d), evaluation monitor by %d"
-                  % (i, history(i), j, r["real"], r["devals"], RA[t]["real"], RA[t]["devals"], r["dmon"]), path=path, cut=i, step=j)
-                return 0
-        if not ref_counts and r["devals"] != r["real"]:
+        de2 = type(C.s).__name__ == "DifferentialEvolutionSolver2"
+        # F5 (known): the objective of a deep copy writes into PRIVATE copies of the counter and of the monitor - the copy's
+        # monitor stands still where the uninterrupted run's grows, its counter stands still (DifferentialEvolutionSolver2
+        # keeps its counter by hand from the frozen monitor: any value), or, without a monitor, the counter alone stands still.
+        # A counter that stands still while the monitor GROWS is not this class.
+        f5 = path == "deepcopy" and r["real"] > 0 and (
+            (mon_grows and r["dmon"] == 0 and (de2 or r["devals"] in (0, r["real"])))
+            or (not mon_grows and ref_counts and r["devals"] == 0 and r["dmon"] == 0))
+        if f5:
+            in_f5 = True
+            F("monitor", B.KEY_F5, "cut %d, Step %d of the deep copy: %d real cost calls, evaluations grew by %d, evaluation monitor by %d"
+              % (i, j, r["real"], r["devals"], r["dmon"]), path=path, cut=i, step=j)
+        elif ref_counts and not (r["devals"] == r["real"] and (not mon_grows or r["dmon"] == r["real"])):
+            F("monitor", tag + "/copy-does-not-count-its-own-evaluations/" + cls, "cut %d (%s), Step %d: %d real cost calls, evaluations grew by %d (uninterrupted run: %d calls, +%d), evaluation monitor by %d"
+              % (i, history(i), j, r["real"], r["devals"], RA[t]["real"], RA[t]["devals"], r["dmon"]), path=path, cut=i, step=j)
+            return 0
+        if not f5 and not ref_counts and r["devals"] != r["real"]:
             # the copy does not count what it evaluates in this Step - and neither does the uninterrupted run
-            if type(C.s).__name__ == "DifferentialEvolutionSolver2" and shape[t - 1] in ("short", "long") and (in_f5 or (r["devals"], r["real"]) == (RA[t]["devals"], RA[t]["real"])):
+            if de2 and shape[t - 1] in ("short", "long") and (in_f5 or (r["devals"], r["real"]) == (RA[t]["devals"], RA[t]["real"])):
                 # (in_f5: a deep copy whose counter / monitor were frozen for some Steps - F5 - jumps to ITS monitor's length)
                 # F62: `_Step` overwrites the counter with len(evalmon) ("leverage the evalmon", differential_evolution.py
                 # l.567-569).  Strongest true statement inside the class (checked below): the same numbers as the uninterrupted run
@@ -413,8 +419,12 @@ def solve_stage(spec, S, dS, m, shape, tmp, rec, F, H, history):
             continue
         sc = B.snap(C.s)
         skip = ()
-        if devS == realS and not (dev == real and (sc["evalmon_x"] is None or dmonS != realS or dmon == real)):
-            if path == "deepcopy" and dev == 0 and dmon == 0:
+        de2 = type(C.s).__name__ == "DifferentialEvolutionSolver2"
+        mon_grows = sc["evalmon_x"] is not None and dmonS == realS
+        f5 = path == "deepcopy" and real > 0 and ((mon_grows and dmon == 0 and (de2 or dev in (0, real)))
+                                                   or (not mon_grows and devS == realS and dev == 0 and dmon == 0))
+        if f5 or (devS == realS and not (dev == real and (not mon_grows or dmon == real))):
+            if f5:
                 F("monitor", B.KEY_F5, "cut %d, Solve() of the deep copy: %d real cost calls, evaluations grew by %d, evaluation monitor by %d" % (m, real, dev, dmon), path=path, cut=m)
                 H("reconf:solve:deepcopy-unlinked:not-compared")
                 continue
